@@ -534,39 +534,47 @@ var positions = []string{"top", "ptr", "ptrptr", "field", "slice", "array", "map
 
 type mapKeyName string
 
-// place builds the value holding x (x: addressable reflect.Value of type X set to sample a) at position p, and a
-// destination of the same shape for Decode (pointer to it is returned).
-func place(p string, xt reflect.Type, a int) (src reflect.Value, dst reflect.Value) {
-	mk := func(a int) reflect.Value {
-		v := reflect.New(xt).Elem()
-		if xt == reflect.TypeOf(time.Time{}) {
-			v.Set(reflect.ValueOf(time.Unix(int64(1700000000+a), 0).UTC()))
-		} else {
-			switch xt.Kind() {
-			case reflect.Struct:
-				v.Field(0).SetInt(int64(a))
-			case reflect.Int, reflect.Int8, reflect.Int16, reflect.Int32, reflect.Int64:
-				v.SetInt(int64(a))
-			case reflect.Uint, reflect.Uint8, reflect.Uint16, reflect.Uint32, reflect.Uint64:
-				v.SetUint(uint64(a))
-			case reflect.String:
-				if a != 0 {
-					v.SetString("s" + strconv.Itoa(a))
-				}
+// mkSample: an addressable X set to sample a (the struct / scalar kinded types of the first sweep)
+func mkSample(xt reflect.Type, a int) reflect.Value {
+	v := reflect.New(xt).Elem()
+	if xt == reflect.TypeOf(time.Time{}) {
+		v.Set(reflect.ValueOf(time.Unix(int64(1700000000+a), 0).UTC()))
+	} else {
+		switch xt.Kind() {
+		case reflect.Struct:
+			v.Field(0).SetInt(int64(a))
+		case reflect.Int, reflect.Int8, reflect.Int16, reflect.Int32, reflect.Int64:
+			v.SetInt(int64(a))
+		case reflect.Uint, reflect.Uint8, reflect.Uint16, reflect.Uint32, reflect.Uint64:
+			v.SetUint(uint64(a))
+		case reflect.String:
+			if a != 0 {
+				v.SetString("s" + strconv.Itoa(a))
 			}
 		}
-		return v
 	}
-	x := mk(a)
+	return v
+}
+
+// place builds the value holding x (x: addressable reflect.Value of type X set to sample a) at position p, and a
+// destination of the same shape for Decode (pointer to it is returned).
+func place(p string, xt reflect.Type, mk func(d int) reflect.Value, nilptr bool) (src reflect.Value, dst reflect.Value) {
+	x := mk(0)
+	addr := func(v reflect.Value) reflect.Value { // the pointer to X the position holds
+		if nilptr {
+			return reflect.Zero(reflect.PointerTo(xt))
+		}
+		return v.Addr()
+	}
 	ifaceT := reflect.TypeOf((*interface{})(nil)).Elem()
 	switch p {
 	case "top":
 		return x, reflect.New(xt)
 	case "ptr":
-		return x.Addr(), reflect.New(reflect.PointerTo(xt))
+		return addr(x), reflect.New(reflect.PointerTo(xt))
 	case "ptrptr":
 		pp := reflect.New(reflect.PointerTo(xt))
-		pp.Elem().Set(x.Addr())
+		pp.Elem().Set(addr(x))
 		return pp, reflect.New(reflect.PointerTo(reflect.PointerTo(xt)))
 	case "field":
 		st := reflect.StructOf([]reflect.StructField{{Name: "F", Type: xt}, {Name: "G", Type: reflect.TypeOf(0)}})
@@ -577,12 +585,12 @@ func place(p string, xt reflect.Type, a int) (src reflect.Value, dst reflect.Val
 	case "slice":
 		s := reflect.MakeSlice(reflect.SliceOf(xt), 2, 2)
 		s.Index(0).Set(x)
-		s.Index(1).Set(mk(a + 1))
+		s.Index(1).Set(mk(1))
 		return s, reflect.New(reflect.SliceOf(xt))
 	case "array":
 		s := reflect.New(reflect.ArrayOf(2, xt)).Elem()
 		s.Index(0).Set(x)
-		s.Index(1).Set(mk(a + 1))
+		s.Index(1).Set(mk(1))
 		return s, reflect.New(reflect.ArrayOf(2, xt))
 	case "mapval":
 		mt := reflect.MapOf(reflect.TypeOf(""), xt)
@@ -623,7 +631,7 @@ func place(p string, xt reflect.Type, a int) (src reflect.Value, dst reflect.Val
 		case "pifaceslice":
 			sl := reflect.MakeSlice(reflect.SliceOf(pif), 2, 2)
 			sl.Index(0).Set(newPI(x))
-			sl.Index(1).Set(newPI(mk(a + 1)))
+			sl.Index(1).Set(newPI(mk(1)))
 			d := reflect.New(reflect.SliceOf(pif))
 			ds := reflect.MakeSlice(reflect.SliceOf(pif), 2, 2)
 			ds.Index(0).Set(zero())
@@ -643,7 +651,7 @@ func place(p string, xt reflect.Type, a int) (src reflect.Value, dst reflect.Val
 		st := reflect.SliceOf(ifaceT)
 		sl := reflect.MakeSlice(st, 2, 2)
 		sl.Index(0).Set(x)
-		sl.Index(1).Set(mk(a + 1))
+		sl.Index(1).Set(mk(1))
 		d := reflect.New(st)
 		ds := reflect.MakeSlice(st, 2, 2)
 		ds.Index(0).Set(reflect.New(xt).Elem())
@@ -660,7 +668,7 @@ func place(p string, xt reflect.Type, a int) (src reflect.Value, dst reflect.Val
 			m.SetMapIndex(k, x)
 			d.Elem().SetMapIndex(k, reflect.New(xt).Elem())
 		} else {
-			m.SetMapIndex(k, x.Addr())
+			m.SetMapIndex(k, addr(x))
 			d.Elem().SetMapIndex(k, reflect.New(xt))
 		}
 		return m, d
@@ -676,7 +684,7 @@ func place(p string, xt reflect.Type, a int) (src reflect.Value, dst reflect.Val
 			m.SetMapIndex(reflect.ValueOf("outer1"), v)
 			v2 := reflect.New(in).Elem()
 			v2.Field(0).SetInt(3333)
-			v2.Field(1).Set(mk(a + 1))
+			v2.Field(1).Set(mk(1))
 			v2.Field(2).SetInt(4444)
 			m.SetMapIndex(reflect.ValueOf("outer2"), v2)
 			return m, reflect.New(mt)
@@ -690,7 +698,7 @@ func place(p string, xt reflect.Type, a int) (src reflect.Value, dst reflect.Val
 	case "ifaceptr":
 		st := reflect.StructOf([]reflect.StructField{{Name: "I", Type: ifaceT}})
 		s := reflect.New(st).Elem()
-		s.Field(0).Set(x.Addr())
+		s.Field(0).Set(addr(x))
 		d := reflect.New(st)
 		d.Elem().Field(0).Set(reflect.New(xt))
 		return s, d
@@ -717,17 +725,156 @@ func coqFlags(f codec.VerifTypeFlags, checkExt string) string {
 		b(f.TextMarshaler), b(f.TextMarshalerPtr), b(f.TextUnmarshaler), b(f.TextUnmarshalerPtr))
 }
 
+// runner: the state shared by the streams
+type runner struct {
+	sum *vh.Summary
+	cv  *vh.Cases
+	id  int
+}
+
+// one places X (made by mk; value class cls) at position p, encodes it with the root passed by value or by pointer,
+// decodes it back and applies the oracle: Decode succeeds on what Encode wrote; the same kind of hook ran on both
+// sides, the same number of times; the round trip is the identity; the hook is the one the documented precedence
+// prescribes and it ran once per X held (never for a nil X / nil *X: nil is written as nil).
+func (r *runner) one(stream, format string, o vh.Opts, h codec.Handle, xt xtype, p string, byPtr bool, cls string, mk func(d int) reflect.Value) {
+	sum := r.sum
+	want := xt.want(format)
+	isNil := cls == "nil" || cls == "nilptr"
+	if isNil {
+		want = "none"
+	}
+	src, dst := place(p, xt.rt, mk, cls == "nilptr")
+	var in interface{} = src.Interface()
+	if byPtr {
+		if !src.CanAddr() {
+			pv := reflect.New(src.Type())
+			pv.Elem().Set(src)
+			src = pv.Elem()
+		}
+		in = src.Addr().Interface()
+	}
+	cj := map[string]interface{}{"format": format, "opts": o.String(), "type": xt.name, "position": p, "root_by_pointer": byPtr, "want": want}
+	if cls != "" {
+		cj["value_class"] = cls
+	}
+	resetCalls()
+	var out []byte
+	err := codec.NewEncoderBytes(&out, h).Encode(in)
+	encObs := observed(encCalls)
+	encN, _ := sumCalls(encCalls)
+	cls2 := fmt.Sprintf("%s:%s", xt.name, p)
+	if cls != "" {
+		// kinds stream: the root cause is a matter of (kind of X, value class, mechanism); type and position are in the case
+		cls2 = fmt.Sprintf("%s:%s:%s", xt.rt.Kind(), cls, xt.want(format))
+	}
+	if err != nil {
+		cj["err"] = fmt.Sprint(err)
+		sum.FailC(stream, "encode-error:"+cls2, "Encode of a custom-coded type failed in this position", cj)
+		return
+	}
+	resetCalls()
+	err = codec.NewDecoderBytes(out, h).Decode(dst.Interface())
+	decObs := observed(decCalls)
+	decN, _ := sumCalls(decCalls)
+	cj["enc_hook"], cj["dec_hook"], cj["bytes"] = encObs, decObs, vh.Hex(out)
+	cj["enc_hook_calls"], cj["dec_hook_calls"] = encN, decN
+	wantN := 0
+	if want != "none" {
+		wantN = holds(p)
+	}
+	same := func() bool {
+		if stream == "positions" {
+			return vh.DeepEq(dst.Elem(), derefTo(src, dst.Elem().Type()), vh.EqOpts{})
+		}
+		return eqv(dst.Elem(), derefTo(src, dst.Elem().Type()), isNil)
+	}
+	nz, _ := o["NilCollectionToZeroLength"].(bool)
+	switch {
+	case nz && cls == "nil" && xt.want(format) != "none" && encN == 0 && (err != nil || decN > 0):
+		// F17-4: encodeValue writes a nil map / slice / chan as an EMPTY collection before the function lookup, for a
+		// custom-coded type too; the decoder runs the type's decode hook on that item
+		if err != nil {
+			cj["err"] = fmt.Sprint(err)
+		}
+		sum.FailC(stream, "nil-as-empty-bypasses-encode-hook:"+xt.rt.Kind().String(), "with NilCollectionToZeroLength a nil value of a custom-coded map / slice / chan type is written as an empty collection without its encode hook, and read with its decode hook", cj)
+	case err != nil:
+		cj["err"] = fmt.Sprint(err)
+		sum.FailC(stream, "decode-error:"+cls2, "Decode of what Encode produced failed in this position", cj)
+	case encObs != decObs:
+		sum.FailC(stream, "asymmetric:"+cls2, "the custom encode hook and the custom decode hook did not both run", cj)
+	case encN != decN:
+		sum.FailC(stream, "asymmetric-count:"+cls2, "the custom encode hook and the custom decode hook did not run the same number of times", cj)
+	case !same():
+		cj["got"] = fmt.Sprintf("%+v", dst.Elem().Interface())
+		sum.FailC(stream, "roundtrip:"+cls2, "Decode(Encode(place(p,x))) differs from place(p,x)", cj)
+	case encObs != want:
+		c := "precedence:" + want + "-not-selected"
+		sum.FailC(stream, c, "the mechanism used is not the one the documented precedence prescribes", cj)
+	case encN != wantN:
+		cj["want_hook_calls"] = wantN
+		sum.FailC(stream, "hook-count:"+cls2, "the custom hook did not run exactly once per value of the type held at this position", cj)
+	}
+	// model case: the mechanism observed at top level vs Gen.Choice on the flags read through the hook
+	if p == "top" && !byPtr {
+		f := codec.VerifTypeFlagsOf(h, xt.rt)
+		if xt.name == "time" && err == nil {
+			// time's own marshalers carry no counters: recognise the mechanism by the bytes
+			t := src.Interface().(time.Time)
+			if mb, e := t.MarshalBinary(); e == nil && f.BinaryEncoding {
+				var viaBin []byte
+				if codec.NewEncoderBytes(&viaBin, h).Encode(mb) == nil && bytes.Equal(viaBin, out) {
+					encObs, decObs = "binary", "binary"
+				}
+			}
+			if mj, e := t.MarshalJSON(); e == nil && f.Json && !f.TimeBuiltin && bytes.Equal(bytes.TrimSpace(out), mj) {
+				encObs, decObs = "json", "json" // (the native json form is the same text)
+			}
+		}
+		ec, ok1 := mechCode[encObs]
+		dc, ok2 := mechCode[decObs]
+		if !ok1 || !ok2 {
+			sum.FailC(stream, "several-hooks:"+cls2, "more than one kind of custom hook ran for one value", cj)
+		} else if err != nil && decN == 0 {
+			// Decode failed (reported above) before any user hook was reached: which mechanism ran was not observed
+		} else {
+			// the step before the lookup (Gen/ChoicePre.v): kind of X, nil-ness, NilCollectionToZeroLength, element uint8
+			kind, u8 := "KOther", false
+			switch xt.rt.Kind() {
+			case reflect.Map:
+				kind = "KMap"
+			case reflect.Slice:
+				kind, u8 = "KSlice", xt.rt.Elem().Kind() == reflect.Uint8 && xt.rt.Elem().PkgPath() == ""
+			case reflect.Chan:
+				kind, u8 = "KChan", xt.rt.Elem().Kind() == reflect.Uint8 && xt.rt.Elem().PkgPath() == ""
+			}
+			r.cv.Add(fmt.Sprintf("mkcase %d %s %s %s %s %d %d %s %s %s %s", r.id, coqFlags(f, "enc_fn_checkExt"), coqFlags(f, "dec_fn_checkExt"), vh.CoqBool(f.EncBuiltin), vh.CoqBool(f.DecBuiltin), ec, dc,
+				kind, vh.CoqBool(cls == "nil"), vh.CoqBool(nz), vh.CoqBool(u8)))
+			sum.ModelCases++
+		}
+	}
+	r.id++
+	if cls == "" {
+		sum.Count(stream+"."+format, fmt.Sprintf("%s/%s/%v/%s/%s", xt.name, p, byPtr, format, encObs))
+	} else {
+		sum.Count(stream+"."+format, fmt.Sprintf("%s/%s/%s/%v/%s/%s", xt.name, cls, p, byPtr, format, encObs))
+	}
+	sum.Dist["mech."+encObs]++
+	if r.id%211 == 0 {
+		sum.Sample(cj)
+	}
+}
+
 func main() {
 	rounds := flag.Int("rounds", 2, "option vectors per format")
 	cases := flag.String("cases", "/verif/build/c17/cases", "directory for the model case files")
 	flag.Parse()
-	r := vh.NewRng(vh.SeedFromEnv())
-	sum := vh.NewSummary("25 types (a Selfer re-entering with another pointer type at the same address, a Selfer that re-enters the Decoder on a general-path map, Text / Binary marshalers whose form is empty-not-nil for the zero value, named scalar-kind types with Text / Binary / Selfer / all pairs, BytesExt/InterfaceExt, SelfExt, ext+Selfer, Selfer value/pointer receiver, Selfer+marshalers, Binary/Text/JSON marshaler pairs with value and pointer receivers, all three pairs, marshal-only, unmarshal-only, time.Time) x 19 positions (X by value in a []interface{} element; *interface{} holding X at top level / in a field / slice / map; incl. the interface{} value of a named-key map, pre-populated; a field of a small struct that is a map value / held by value in an interface{}) x root by value / by pointer x 5 formats x option vectors (Canonical on in every second round, TimeNotBuiltin in rounds 2 and 3 of every four, CheckCircularRef from round 1 on, NoAddressableReadonly in rounds 1 and 2); distinct by (type, position, root, format, mechanism observed)")
-	cv := vh.NewCases(*cases, "From Coq Require Import List NArith Bool.\nFrom Verif Require Import Gen.Choice C17.Model C17.Corr.\nImport ListNotations.", "case", "mismatches", 60)
-	id := 0
+	rg := vh.NewRng(vh.SeedFromEnv())
+	sum := vh.NewSummary("positions: 25 types (a Selfer re-entering with another pointer type at the same address, a Selfer that re-enters the Decoder on a general-path map, Text / Binary marshalers whose form is empty-not-nil for the zero value, named scalar-kind types with Text / Binary / Selfer / all pairs, BytesExt/InterfaceExt, SelfExt, ext+Selfer, Selfer value/pointer receiver, Selfer+marshalers, Binary/Text/JSON marshaler pairs with value and pointer receivers, all three pairs, marshal-only, unmarshal-only, time.Time) x 19 positions (X by value in a []interface{} element; *interface{} holding X at top level / in a field / slice / map; incl. the interface{} value of a named-key map, pre-populated; a field of a small struct that is a map value / held by value in an interface{}) x root by value / by pointer x 5 formats x option vectors (Canonical on in every second round, TimeNotBuiltin in rounds 2 and 3 of every four, CheckCircularRef from round 1 on, NoAddressableReadonly in rounds 1 and 2); kinds (seed independent): 39 custom-coded types of map / slice / []byte / array / chan / one-pointer struct / one-pointer array / bool / float / string / int / uint8 KIND (Selfer by value and by pointer receiver, Binary, Text, JSON pair, all pairs) and the 25 types above x value classes (nil, empty-not-nil, one, two elements / zero value, non-zero / nil pointer to X) x the 19 positions x root by value / by pointer x 5 formats x 4 fixed option vectors (plain; Canonical + CheckCircularRef; NoAddressableReadonly + StructToArray; NilCollectionToZeroLength on the types custom-coded in the format); oracle on both: decode of own output succeeds, same hook kind and the same number of hook calls on both sides, exactly one call per X held (none for nil), round trip, documented precedence; distinct by (type, value class, position, root, format, mechanism observed)")
+	cv := vh.NewCases(*cases, "From Coq Require Import List NArith Bool.\nFrom Verif Require Import Gen.Choice Gen.ChoicePre C17.Model C17.Corr.\nImport ListNotations.", "case", "mismatches", 60)
+	r := &runner{sum: sum, cv: cv}
 	for _, format := range vh.Formats {
 		for round := 0; round < *rounds; round++ {
-			o := vh.RandEncOpts(r, format)
+			o := vh.RandEncOpts(rg, format)
 			delete(o, "StringToRaw")
 			if round == 0 {
 				o = vh.Opts{}
@@ -758,86 +905,68 @@ func main() {
 						continue // a json object key must be a string: only the text/json forms are
 					}
 					for _, byPtr := range []bool{false, true} {
-						sample := 5 + id%50
+						sample := 5 + r.id%50
 						if strings.HasSuffix(xt.name, "0") {
 							sample = 0 // the marshaled form is empty (not nil)
 						}
-						src, dst := place(p, xt.rt, sample)
-						var in interface{} = src.Interface()
-						if byPtr {
-							if !src.CanAddr() {
-								pv := reflect.New(src.Type())
-								pv.Elem().Set(src)
-								src = pv.Elem()
-							}
-							in = src.Addr().Interface()
-						}
-						cj := map[string]interface{}{"format": format, "opts": o.String(), "type": xt.name, "position": p, "root_by_pointer": byPtr, "want": want}
-						resetCalls()
-						var out []byte
-						err := codec.NewEncoderBytes(&out, h).Encode(in)
-						encObs := observed(encCalls)
-						if err != nil {
-							cj["err"] = fmt.Sprint(err)
-							sum.FailC("positions", "encode-error:"+xt.name+":"+p, "Encode of a custom-coded type failed in this position", cj)
+						r.one("positions", format, o, h, xt, p, byPtr, "", func(d int) reflect.Value { return mkSample(xt.rt, sample+d) })
+					}
+				}
+			}
+		}
+	}
+	kindsStream(r)
+	cv.Close()
+	sum.Print()
+}
+
+// kindsStream: every underlying kind x every value class that encodeValue / decodeValue may treat before the
+// function lookup; deterministic (no random choice).
+func kindsStream(r *runner) {
+	vectors := []vh.Opts{
+		{},
+		{"Canonical": true, "CheckCircularRef": true},
+		{"NoAddressableReadonly": true, "StructToArray": true},
+		// nil collections written as empty ones: here only the types that have a custom codec in the format (what is
+		// coded by its kind legitimately comes back empty instead of nil)
+		{"NilCollectionToZeroLength": true},
+	}
+	var types []xtype
+	types = append(types, kindTypes()...)
+	for _, xt := range xtypes() {
+		if xt.ext == "" && xt.name != "time" { // (extensions: F17-1; time: no counters) stay in the first sweep
+			types = append(types, xt)
+		}
+	}
+	for _, format := range vh.Formats {
+		for _, o := range vectors {
+			for _, xt := range types {
+				h := newHandle(format, o)
+				want := xt.want(format)
+				if nz, _ := o["NilCollectionToZeroLength"].(bool); nz && want == "none" {
+					continue
+				}
+				for _, cls := range classesOf(xt.rt.Kind()) {
+					for _, p := range positions {
+						if cls == "nilptr" && !hasPtrToX(p) {
 							continue
 						}
-						resetCalls()
-						err = codec.NewDecoderBytes(out, h).Decode(dst.Interface())
-						decObs := observed(decCalls)
-						cj["enc_hook"], cj["dec_hook"], cj["bytes"] = encObs, decObs, vh.Hex(out)
-						cls := fmt.Sprintf("%s:%s", xt.name, p)
-						switch {
-						case err != nil:
-							cj["err"] = fmt.Sprint(err)
-							sum.FailC("positions", "decode-error:"+cls, "Decode of what Encode produced failed in this position", cj)
-						case encObs != decObs:
-							sum.FailC("positions", "asymmetric:"+cls, "the custom encode hook and the custom decode hook did not both run", cj)
-						case !vh.DeepEq(dst.Elem(), derefTo(src, dst.Elem().Type()), vh.EqOpts{}):
-							cj["got"] = fmt.Sprintf("%+v", dst.Elem().Interface())
-							sum.FailC("positions", "roundtrip:"+cls, "Decode(Encode(place(p,x))) differs from place(p,x)", cj)
-						case encObs != want:
-							c := "precedence:" + want + "-not-selected"
-							sum.FailC("positions", c, "the mechanism used is not the one the documented precedence prescribes", cj)
-						}
-						// model case: the mechanism observed at top level vs Gen.Choice on the flags read through the hook
-						if p == "top" && !byPtr {
-							f := codec.VerifTypeFlagsOf(h, xt.rt)
-							if xt.name == "time" && err == nil {
-								// time's own marshalers carry no counters: recognise the mechanism by the bytes
-								t := src.Interface().(time.Time)
-								if mb, e := t.MarshalBinary(); e == nil && f.BinaryEncoding {
-									var viaBin []byte
-									if codec.NewEncoderBytes(&viaBin, h).Encode(mb) == nil && bytes.Equal(viaBin, out) {
-										encObs, decObs = "binary", "binary"
-									}
-								}
-								if mj, e := t.MarshalJSON(); e == nil && f.Json && !f.TimeBuiltin && bytes.Equal(bytes.TrimSpace(out), mj) {
-									encObs, decObs = "json", "json" // (the native json form is the same text)
-								}
+						if p == "mapkey" {
+							if !xt.rt.Comparable() {
+								continue // maps and slices are not map keys
 							}
-							ec, ok1 := mechCode[encObs]
-							dc, ok2 := mechCode[decObs]
-							if !ok1 || !ok2 {
-								sum.FailC("positions", "several-hooks:"+cls, "more than one kind of custom hook ran for one value", cj)
-							} else {
-								cv.Add(fmt.Sprintf("mkcase %d %s %s %s %s %d %d", id, coqFlags(f, "enc_fn_checkExt"), coqFlags(f, "dec_fn_checkExt"), vh.CoqBool(f.EncBuiltin), vh.CoqBool(f.DecBuiltin), ec, dc))
-								sum.ModelCases++
+							if format == "json" && (cls == "nil" || (want != "text" && want != "json")) {
+								continue // a json object key must be a string: only the text/json forms are
 							}
 						}
-						id++
-						sum.Count("positions."+format, fmt.Sprintf("%s/%s/%v/%s/%s", xt.name, p, byPtr, format, encObs))
-						sum.Dist["mech."+encObs]++
-						if id%211 == 0 {
-							sum.Sample(cj)
+						for _, byPtr := range []bool{false, true} {
+							r.one("kinds", format, o, h, xt, p, byPtr, cls, func(d int) reflect.Value { return mkClass(xt.rt, cls, d) })
 						}
 					}
 				}
 			}
 		}
 	}
-	cv.Close()
-	sum.Print()
 }
 
 // derefTo strips pointers from v until it has type t (the decoded side is dst.Elem()).
